@@ -522,7 +522,10 @@ def apply_sut(sut: TableSUT, op, aux):
     elif n == "delete_row":
         t.delete_row(yarg(op))
     elif n == "extend_rows":
-        t.extend_rows([mk_row(r) for r in op["rows"]])
+        if op.get("how") == "generator":
+            t.extend_rows(mk_row(r) for r in op["rows"])  # any iterable of rows is consumed once
+        else:
+            t.extend_rows([mk_row(r) for r in op["rows"]])
     elif n == "set_row_values":
         t.set_row_values(yarg(op), op["values"])
     elif n == "set_row_cells":
